@@ -480,6 +480,21 @@ def iterTableM {V : Type} (cv : Conv V) (r : Reader V) : Sheet → OutM V
         dataRowsM cv r.stop r.cfgs slotss (if r.ladder then firstTitled titles else none)
           (r.cfgs.map fun _ => 0) none rest
 
+/-- the titles of the sheet: those of its first row that is not blank -/
+def titlesOf : Sheet → List Key
+  | [] => []
+  | row :: rest => if rowEmpty row then titlesOf rest else row.map (fun c => titleOf c.val)
+
+/-- The default factories the read did not use: an optional attribute whose column is in the sheet is
+read from its cells, its factory is never called, so the caller's next call of it is call number 0.
+(`(attribute index, that value)` for every such attribute.) -/
+def unusedDefaults {V : Type} (titles : List Key) : Nat → List (Rule V) → List (Nat × V)
+  | _, [] => []
+  | i, .col t _ (some d) :: rs =>
+    if titles.contains t then (i, d 0) :: unusedDefaults titles (i + 1) rs
+    else unusedDefaults titles (i + 1) rs
+  | i, _ :: rs => unusedDefaults titles (i + 1) rs
+
 /-! ## the wrappers around `iter_table` -/
 
 /-- `list(generator)`: an exception raised by the generator loses what was yielded before -/
